@@ -40,6 +40,10 @@ def case_hash(case):
     return hashlib.sha1(jdump(case).encode()).hexdigest()[:16]
 
 
+# checks that run with a user-level ~/.signacrc present (content must be harmless on the unchanged tree)
+USER_CONFIG = {"C19": "# user level configuration of signac (no settings)\n"}
+
+
 class Mismatch:
     """One oracle disagreement. `detector` names the oracle clause that fired."""
 
@@ -372,6 +376,12 @@ def main(argv=None):
     sys.path.insert(0, VERIF)
     # signac resolves ~/.signacrc at import time: point HOME at an empty directory first
     home = os.path.join("/dev/shm" if os.access("/dev/shm", os.W_OK) else "/var/tmp", "verif-empty-home")
+    if prop.upper() in USER_CONFIG:
+        # this check runs as a user who has a (harmless) user-level configuration file, like many real users
+        home += "-" + prop.upper()
+        os.makedirs(home, exist_ok=True)
+        with open(os.path.join(home, ".signacrc"), "w") as f:
+            f.write(USER_CONFIG[prop.upper()])
     os.makedirs(home, exist_ok=True)
     os.environ["HOME"] = home
     t0 = time.time()
